@@ -1,42 +1,201 @@
 import Jwt
-/-! Line-protocol driver: same operation lines as harness/exec.c, answered by the model. -/
-open Jwt Jwt.Base64 Jwt.Generated
+import Driver.Codec
+import Std.Data.HashMap
+/-! Line-protocol driver: the same operation lines as harness/exec.c, answered by the model.
+
+Oracle answers (JSON text ↔ tree, HMAC, public-key verdicts) arrive as `oracle …` lines and are
+looked up by the exact input they answer for; when the model asks something that is not in the
+tables the driver prints `need …` instead of a result and the harness re-runs the whole file with
+the answer added (the driver is a pure function of its input file). -/
+open Jwt Jwt.Base64 Jwt.Generated Driver
 
 namespace Driver
 
-def hexDigit (c : Char) : Option Nat :=
-  if '0' ≤ c ∧ c ≤ '9' then some (c.toNat - 48)
-  else if 'a' ≤ c ∧ c ≤ 'f' then some (c.toNat - 87)
-  else if 'A' ≤ c ∧ c ≤ 'F' then some (c.toNat - 55)
-  else none
+structure Oracles where
+  load : Std.HashMap String (Option Json) := {}
+  loadStrict : Std.HashMap String (Option Json) := {}
+  dump : Std.HashMap String Bytes := {}
+  hmac : Std.HashMap String Bytes := {}
+  pkv : Std.HashMap String Bool := {}
+  pks : Std.HashMap String (Option Bytes) := {}
 
-def unhexList : List Char → Option Bytes
-  | [] => some []
-  | [_] => none
-  | a :: b :: rest => do
-    let x ← hexDigit a
-    let y ← hexDigit b
-    let r ← unhexList rest
-    pure (UInt8.ofNat (x * 16 + y) :: r)
-
-/-- `some none` = the NULL pointer -/
-def unhex (s : String) : Option (Option Bytes) :=
-  if s = "NULL" then some none
-  else if s = "-" then some (some [])
-  else (unhexList s.toList).map some
-
-def hexChar (n : Nat) : Char := if n < 10 then Char.ofNat (48 + n) else Char.ofNat (87 + n)
-
-def hex (b : Bytes) : String :=
-  if b.isEmpty then "-"
-  else String.ofList (b.flatMap fun x => [hexChar (x.toNat / 16), hexChar (x.toNat % 16)])
-
-def hexOpt : Option Bytes → String
-  | none => "NULL"
-  | some b => hex b
+structure CkSlot where
+  ck : Checker
+  prog : String := ""
 
 structure St where
-  dummy : Nat := 0
+  now : Int := 1700000000
+  prov : Provider := .openssl
+  keys : Std.HashMap String KeyItem := {}       -- "set:idx" ↦ item
+  cks : Std.HashMap Nat CkSlot := {}
+  orc : Oracles := {}
+
+def provName : Provider → String | .openssl => "openssl" | .gnutls => "gnutls"
+def provId : Provider → Nat | .openssl => 1 | .gnutls => 2
+
+def hmacKey (a : Alg) (key msg : Bytes) : String := s!"{a.ord}:{hex key}:{hex msg}"
+def pkvKey (p : Provider) (kid : Nat) (a : Alg) (msg sig : Bytes) : String :=
+  s!"{provName p}:{kid}:{a.ord}:{hex msg}:{hex sig}"
+
+def mkEnv (st : St) : Env :=
+  { jc := { load := fun b => (st.orc.load.get? (hex b)).getD none, dump := fun j => (st.orc.dump.get? (enc j)).getD [] },
+    cr := { hmac := fun a k m => (st.orc.hmac.get? (hmacKey a k m)).getD [],
+            pkVerify := fun p k a m s => (st.orc.pkv.get? (pkvKey p k.id a m s)).getD false,
+            pkSign := fun _ _ _ _ => none },
+    prov := st.prov, now := st.now }
+
+def loadStrictFn (st : St) : Bytes → Option Json := fun b => (st.orc.loadStrict.get? (hex b)).getD none
+
+def claimOf (s : String) : ClaimId :=
+  match s with
+  | "iss" => .iss | "sub" => .sub | "aud" => .aud | "exp" => .exp | "nbf" => .nbf | "iat" => .iat | "jti" => .jti
+  | _ => .other
+
+def vtypeOf (s : String) : VType :=
+  match s with | "int" => .int | "str" => .str | "bool" => .bool | _ => .json
+
+/-- render the result of a get exactly like the executor (JSON values as `json:`JENC) -/
+def showGet (t : VType) (r : VErr × Option Json) : String :=
+  let v := match r.1, r.2, t with
+    | .none, some (.int i), .int => toString i
+    | .none, some (.str s), .str => hex s
+    | .none, some (.bool b), .bool => if b then "1" else "0"
+    | .none, some j, .json => "json:" ++ enc j
+    | _, _, _ => "x"
+  s!"rc={r.1.code} verr={r.1.code} val={v}"
+
+def mkSetReq (type name val repl : String) : Option SetReq :=
+  match unhex name with
+  | none => none
+  | some n =>
+    let t := vtypeOf type
+    let r : SetReq := { type := t, name := n, replace := repl != "0" }
+    match t with
+    | .int => val.toInt?.map fun i => { r with intVal := i }
+    | .bool => val.toInt?.map fun i => { r with boolVal := i }
+    | .str => (unhex val).map fun s => { r with strVal := s }
+    | .json => (unhex val).map fun s => { r with jsonVal := s }
+
+/-- state threaded through a scripted callback -/
+structure CbSt where
+  headers : Json
+  claims : Json
+  cfg : Config
+  ret : Int := 0
+  obs : String
+  needs : List String := []
+
+/-- one step of a callback program (same syntax as harness/exec.c `run_cb`) -/
+def cbStep (st : St) (jalg : Alg) (s : CbSt) (step : String) : CbSt :=
+  let a := step.splitOn ":"
+  let s := { s with obs := s.obs ++ ";" }
+  let needStrict (r : SetReq) (s : CbSt) : CbSt :=
+    match r.type, r.jsonVal with
+    | .json, some t => if st.orc.loadStrict.contains (hex t) then s else { s with needs := s!"need loadstrict {hex t}" :: s.needs }
+    | _, _ => s
+  match a with
+  | ["hset", ty, nm, v, rp] =>
+    match mkSetReq ty nm v rp with
+    | some r => let (h, e) := setter (loadStrictFn st) s.headers r
+                needStrict r { s with headers := h, obs := s.obs ++ s!"rc={e.code} verr={e.code}" }
+    | none => { s with obs := s.obs ++ "?" }
+  | ["cset", ty, nm, v, rp] =>
+    match mkSetReq ty nm v rp with
+    | some r => let (c, e) := setter (loadStrictFn st) s.claims r
+                needStrict r { s with claims := c, obs := s.obs ++ s!"rc={e.code} verr={e.code}" }
+    | none => { s with obs := s.obs ++ "?" }
+  | ["hget", ty, nm] =>
+    match unhex nm with
+    | some n => { s with obs := s.obs ++ showGet (vtypeOf ty) (getter s.headers (vtypeOf ty) n) }
+    | none => { s with obs := s.obs ++ "?" }
+  | ["cget", ty, nm] =>
+    match unhex nm with
+    | some n => { s with obs := s.obs ++ showGet (vtypeOf ty) (getter s.claims (vtypeOf ty) n) }
+    | none => { s with obs := s.obs ++ "?" }
+  | ["hdel", nm] =>
+    match unhex nm with
+    | some n => { s with headers := (deleter s.headers n).1, obs := s.obs ++ "rc=0" }
+    | none => { s with obs := s.obs ++ "?" }
+  | ["cdel", nm] =>
+    match unhex nm with
+    | some n => { s with claims := (deleter s.claims n).1, obs := s.obs ++ "rc=0" }
+    | none => { s with obs := s.obs ++ "?" }
+  | ["key", set, idx] => { s with cfg := { s.cfg with key := st.keys.get? s!"{set}:{idx}" }, obs := s.obs ++ "k" }
+  | ["nokey"] => { s with cfg := { s.cfg with key := none }, obs := s.obs ++ "k" }
+  | ["alg", n] => { s with cfg := { s.cfg with alg := (n.toNat?.bind Alg.ofOrd).getD .inval }, obs := s.obs ++ "a" }
+  | ["getalg"] => { s with obs := s.obs ++ s!"jalg={jalg.ord}" }
+  | ["ret", n] => { s with ret := n.toInt?.getD 0, obs := s.obs ++ "r" }
+  | _ => { s with obs := s.obs ++ "?" }
+
+def runProg (st : St) (prog : String) (headers claims : Json) (jalg : Alg) (cfg : Config) : CbSt :=
+  let init : CbSt := { headers, claims, cfg, obs := s!"alg={cfg.alg.ord} key={if cfg.key.isSome then 1 else 0}" }
+  (prog.splitOn ",").foldl (cbStep st jalg) init
+
+/-- a scripted program as the model's callback type -/
+def progCb (st : St) (prog : String) : CheckerCb := fun headers claims jalg cfg =>
+  let r := runProg st prog headers claims jalg cfg
+  (r.ret, r.headers, r.claims, r.cfg)
+
+def b01 (b : Bool) : Nat := if b then 1 else 0
+
+/-- the literal bounds-checked decoder (not subject to the `csimp` replacement of `uriDecode`) -/
+def uriDecodeLiteral (src : Bytes) : Option Bytes :=
+  match padCount src.length with
+  | none => none
+  | some z =>
+    match uriDecodeBuf src (List.replicate (decodeAlloc src.length z) 0xAA) with
+    | none => none
+    | some (out, j) => some (out.take j)
+
+/-- everything the model will ask the oracles while verifying `tok` that is not in the tables yet -/
+def verifyNeeds (st : St) (slot : CkSlot) (tok : Bytes) : List String :=
+  let env := mkEnv st
+  let loads : List Bytes :=
+    match splitDot tok with
+    | none => []
+    | some (h, rest) =>
+      match splitDot rest with
+      | none => []
+      | some (p, _) =>
+        let hq := (uriDecode h).map cstr
+        let pq := (uriDecode p).map cstr
+        -- the payload is only loaded when the header went through
+        match hq with
+        | none => []
+        | some hb =>
+          match (env.jc.load hb).map parseHeadAlg with
+          | some (.ok _) => hb :: pq.toList
+          | _ => [hb]
+  let miss := loads.filter fun b => !st.orc.load.contains (hex b)
+  if !miss.isEmpty then miss.map fun b => s!"need load {hex b}"
+  else
+    -- callback-side needs
+    let cbNeeds : List String :=
+      match slot.ck.cfg.cb, parse env.jc tok with
+      | some _, .ok p => (runProg st slot.prog p.headers p.claims p.alg { key := slot.ck.cfg.key, alg := slot.ck.cfg.alg }).needs
+      | _, _ => []
+    if !cbNeeds.isEmpty then cbNeeds
+    else
+      match parse env.jc tok with
+      | .error _ => []
+      | .ok p =>
+        let msg := p.head ++ [46] ++ p.payload
+        let (_, tr) := verifyCore env slot.ck.cfg tok
+        tr.filterMap fun c =>
+          match c with
+          | .hmac a k => if st.orc.hmac.contains (hmacKey a k.oct msg) then none else some s!"need hmac {a.ord} {hex k.oct} {hex msg}"
+          | .pkVerify a k =>
+            match uriDecode p.sig with
+            | some sig => if st.orc.pkv.contains (pkvKey st.prov k.id a msg sig) then none
+                          else some s!"need pkv {provName st.prov} {k.id} {a.ord} {hex msg} {hex sig}"
+            | none => none
+          | _ => none
+
+def parseKV (toks : List String) : Std.HashMap String String :=
+  toks.foldl (fun m t => match t.splitOn "=" with | [k, v] => m.insert k v | _ => m) {}
+
+def ktyOf (s : String) : Kty :=
+  match s with | "ec" => .ec | "rsa" => .rsa | "okp" => .okp | "oct" => .oct | _ => .none
 
 def step (st : St) (line : String) : St × String :=
   let toks := (line.trimAscii.toString.splitOn " ").filter (· ≠ "")
@@ -64,7 +223,7 @@ def step (st : St) (line : String) : St × String :=
       -- The literal decoder works on a `List` buffer (`List.set` is linear, the loop quadratic):
       -- beyond 1 KiB the driver evaluates `decodeSpec`, which `Jwt.Props.C11.C11_decode_spec`
       -- proves equal to `uriDecode` on every input.
-      (st, hexOpt (if b.length ≤ 1024 then uriDecode b else decodeSpec b))
+      (st, hexOpt (if b.length ≤ 1024 then uriDecodeLiteral b else decodeSpec b))
     | _ => (st, "badop")
   | ["strcmp", a, b] =>
     match unhex a, unhex b with
@@ -79,6 +238,94 @@ def step (st : St) (line : String) : St × String :=
     | some k => (st, hexOpt ((Alg.ofOrd k).bind algStr))
     | none => (st, "badop")
   | ["echo"] => (st, "echo")
+  | ["clock", t] => ({ st with now := t.toInt?.getD 0 }, "ok")
+  -- oracle tables
+  | ["oracle", "load", h, j] => ({ st with orc := { st.orc with load := st.orc.load.insert h (if j = "none" then none else dec j) } }, "ok")
+  | ["oracle", "loadstrict", h, j] => ({ st with orc := { st.orc with loadStrict := st.orc.loadStrict.insert h (if j = "none" then none else dec j) } }, "ok")
+  | ["oracle", "dump", j, h] => ({ st with orc := { st.orc with dump := st.orc.dump.insert j ((unhexB h).getD []) } }, "ok")
+  | ["oracle", "hmac", a, k, m, mac] => ({ st with orc := { st.orc with hmac := st.orc.hmac.insert s!"{a}:{k}:{m}" ((unhexB mac).getD []) } }, "ok")
+  | ["oracle", "pkv", p, kid, a, m, s, v] => ({ st with orc := { st.orc with pkv := st.orc.pkv.insert s!"{p}:{kid}:{a}:{m}:{s}" (v = "1") } }, "ok")
+  -- model-side declaration of a key item (the harness knows what it put into the JWK)
+  | "key" :: set :: idx :: rest =>
+    let kv := parseKV rest
+    let item : KeyItem :=
+      { id := ((kv.get? "id").bind String.toNat?).getD 0, kty := ktyOf ((kv.get? "kty").getD ""),
+        alg := (((kv.get? "alg").bind String.toNat?).bind Alg.ofOrd).getD .none,
+        bits := ((kv.get? "bits").bind String.toNat?).getD 0, isPrivate := (kv.get? "priv") = some "1",
+        oct := ((kv.get? "oct").bind unhexB).getD [] }
+    ({ st with keys := st.keys.insert s!"{set}:{idx}" item }, "ok")
+  | ["prov", "name", h] =>
+    match unhex h with
+    | some (some n) =>
+      let st' := if jwtStrcmp (strBytes "openssl") n = 0 then some { st with prov := .openssl }
+                 else if jwtStrcmp (strBytes "gnutls") n = 0 then some { st with prov := .gnutls } else none
+      match st' with
+      | some s => (s, s!"rc=0 cur={provName s.prov} id={provId s.prov}")
+      | none => (st, s!"rc=1 cur={provName st.prov} id={provId st.prov}")
+    | _ => (st, "badop")
+  | ["prov", "id", n] =>
+    match n.toInt? with
+    | some 1 => ({ st with prov := .openssl }, "rc=0 cur=openssl id=1")
+    | some 2 => ({ st with prov := .gnutls }, "rc=0 cur=gnutls id=2")
+    | _ => (st, s!"rc=1 cur={provName st.prov} id={provId st.prov}")
+  | ["provget"] => (st, s!"cur={provName st.prov} id={provId st.prov}")
+  | "ck" :: c :: rest =>
+    match c.toNat? with
+    | none => (st, "badslot")
+    | some ci =>
+      match rest with
+      | ["new"] => ({ st with cks := st.cks.insert ci { ck := Checker.new } }, "ok")
+      | _ =>
+        match st.cks.get? ci with
+        | none => (st, "nock")
+        | some slot =>
+          let put (ck : Checker) : St := { st with cks := st.cks.insert ci { slot with ck := ck } }
+          match rest with
+          | ["free"] => ({ st with cks := st.cks.erase ci }, "ok")
+          | "setkey" :: a :: more =>
+            let alg := (a.toNat?.bind Alg.ofOrd).getD .inval
+            let key := match more with | [s, i] => st.keys.get? s!"{s}:{i}" | _ => none
+            let (ck, rc) := slot.ck.setkey alg key
+            (put ck, s!"rc={rc}")
+          | ["claimset", cl, v] =>
+            match unhex v with
+            | some val => let (ck, rc) := slot.ck.claimSet (claimOf cl) val; (put ck, s!"rc={rc}")
+            | none => (st, "badop")
+          | ["claimdel", cl] => let (ck, rc) := slot.ck.claimDel (claimOf cl); (put ck, s!"rc={rc}")
+          | ["claimget", cl] => (st, hexOpt (slot.ck.claimGet (claimOf cl)))
+          | ["leeway", cl, secs] =>
+            match secs.toInt? with
+            | some s => let (ck, rc) := slot.ck.timeLeeway (claimOf cl) s; (put ck, s!"rc={rc}")
+            | none => (st, "badop")
+          | ["setcb", prog] =>
+            if prog = "-" then
+              ({ st with cks := st.cks.insert ci { ck := (slot.ck.setcb none).1, prog := "" } }, "rc=0")
+            else
+              -- the callback closes over the driver state *at call time*: stored as text, built in `verify`
+              ({ st with cks := st.cks.insert ci { ck := slot.ck, prog := prog } }, "rc=0")
+          | ["verify", h] =>
+            match unhex h with
+            | none => (st, "badop")
+            | some tok =>
+              let slot' : CkSlot := if slot.prog = "" then slot
+                else { slot with ck := (slot.ck.setcb (some (progCb st slot.prog))).1 }
+              let needs := match tok with | some t => if t.isEmpty then [] else verifyNeeds st slot' t | none => []
+              if !needs.isEmpty then (st, " | ".intercalate needs)
+              else
+                let (ck, rc) := verify (mkEnv st) slot'.ck tok
+                -- observations of the callback, if it ran
+                let obs := match tok, slot'.ck.cfg.cb with
+                  | some t, some _ =>
+                    if t.isEmpty then "" else
+                    match parse (mkEnv st).jc t with
+                    | .ok p => (runProg st slot.prog p.headers p.claims p.alg { key := slot.ck.cfg.key, alg := slot.ck.cfg.alg }).obs
+                    | .error _ => ""
+                  | _, _ => ""
+                ({ st with cks := st.cks.insert ci { slot with ck := { ck with cfg := slot.ck.cfg } } },
+                 s!"rc={rc} err={b01 ck.error} msg={b01 ck.msg.isSome} cb=[{obs}]")
+          | ["err"] => (st, s!"err={b01 slot.ck.error} msg={b01 slot.ck.msg.isSome}")
+          | ["errclr"] => (put slot.ck.errorClear, "ok")
+          | _ => (st, "badop")
   | _ => (st, "badop")
 
 partial def loop (h : IO.FS.Stream) (out : IO.FS.Stream) (st : St) : IO Unit := do
